@@ -224,7 +224,15 @@ func (o *Oblig) scriptOpt(withModel, relaxed bool) string {
 			if strings.HasSuffix(k, ".base") {
 				continue
 			}
-			_ = t
+			okDecl := true
+			for tok := range tokenSet(t) {
+				if strings.Contains(tok, "!") && !toks[tok] {
+					okDecl = false
+				}
+			}
+			if !okDecl {
+				continue
+			}
 			names = append(names, k)
 		}
 		if len(names) > 0 {
@@ -322,10 +330,20 @@ func (w *World) axiomText(text string) string {
 		lnames = append(lnames, n)
 	}
 	sortStrings(lnames)
-	var litText strings.Builder
+	var litText, litPredText strings.Builder
 	for _, n := range lnames {
 		if containsSym(all, n) {
 			for _, a := range w.lits[n] {
+				if strings.HasPrefix(a, "(assert (") && !strings.HasPrefix(a, "(assert (= ") {
+					// literal predicate facts go after the spec function declarations
+					for name := range w.Specs.SpecFns {
+						if strings.HasPrefix(a, "(assert ("+name+" ") && usedFn[name] {
+							litPredText.WriteString(a)
+							litPredText.WriteByte('\n')
+						}
+					}
+					continue
+				}
 				litText.WriteString(a)
 				litText.WriteByte('\n')
 			}
@@ -369,6 +387,7 @@ func (w *World) axiomText(text string) string {
 		out.WriteString(w.specFnDecl[name])
 		out.WriteByte('\n')
 	}
+	out.WriteString(litPredText.String())
 	for i := range w.Specs.Axioms {
 		if usedAx[i] {
 			out.WriteString("(assert ")
